@@ -795,6 +795,14 @@ Definition stabs_eqb (a b : stabs) : bool :=
 Definition sfun (f : list (Z * Z)) (n : Z) : Z := match zget f n with Some x => x | None => n end.
 Definition remap_ok (f : list (Z * Z)) (g g' : mol) (tabs tabs' : stabs) : bool :=
   mol_eqb (ren_mol (sfun f) g) g' && stabs_eqb (ren_tabs (sfun f) tabs) tabs'.
+(* hypothesis of the insertion-order theorems: a renumbered and insertion-order shuffled molecule g' satisfies
+   mol_perm (ren_mol s g) g' (decided here by sorting atoms, adjacency rows and neighbours by atom number) *)
+Definition norm_mol (g : mol) : mol :=
+  mkMol (isort (fun a b : Z * atom => fst a <=? fst b) (m_atoms g))
+        (isort (fun a b : Z * list (Z * bond) => fst a <=? fst b)
+               (map (fun nl => (fst nl, isort (fun a b : Z * bond => fst a <=? fst b) (snd nl))) (m_adj g))).
+Definition perm_ok (f : list (Z * Z)) (g g' : mol) : bool :=
+  mol_eqb (norm_mol (ren_mol (sfun f) g)) (norm_mol g') && wf_mol g && wf_mol g'.
 (* the Uint63 hash against the arbitrary-precision model of PyHash.v *)
 Definition h_ok (l : list Z) (v : Z) : bool := (hash63 l =? v) && (hash_ztuple l =? v).
 '''
@@ -939,6 +947,23 @@ class MorganSpy:
         return f'Ok {zmap(r)}', f'Ok {lst([tup(zraw(k), zraw(v)) for k, v in self.last])}', r
 
 
+def reinserted_view(m, rng):
+    """the molecule as if its atoms had been added in another order and its bonds in another order: _atoms and _bonds get the SAME
+    new key order (add_atom fills both), every neighbour dict its own order"""
+    c = m.copy()
+    ks = list(c._atoms)
+    rng.shuffle(ks)
+    c._atoms = {n: c._atoms[n] for n in ks}
+    nb = {}
+    for n in ks:
+        ms = list(c._bonds[n])
+        rng.shuffle(ms)
+        nb[n] = {x: c._bonds[n][x] for x in ms}
+    c._bonds = nb
+    c.__dict__.clear()
+    return c
+
+
 def shuffled_view(m, rng):
     """the molecule with the items of _atoms, _bonds and of every neighbour dict in another insertion order (raw dicts of a
     copy: enough for Morgan, which does not look at stereo)"""
@@ -1056,7 +1081,13 @@ def correspondence(ck):
             variants = [('as-read', m)]
             if len(m) > 1:
                 variants.append(('renumbered', corpus.renumber(m, rng)))
-                variants.append(('shuffled', shuffled_view(corpus.renumber(m, rng), rng)))
+                v2 = corpus.renumber(m, rng)
+                variants.append(('shuffled', shuffled_view(v2, rng)))
+                if len(m) <= 40:
+                    cases.append(f'perm_ok {zmap(dict(zip(m._atoms, v2._atoms)))} {mol_term(m)} {mol_term(reinserted_view(v2, rng))}')
+                    meta.append(('insertion-order', smi))
+                    ck.case(('corr-perm', smi, tuple(v2._atoms)), nontrivial=len(m) > 2)
+                    ck.count('corr:insertion-order-hypothesis')
             ref = None
             for i, (how, v) in enumerate(variants):
                 c, ao = mol_case(spy, v, with_labels=(i == 1))
@@ -1193,7 +1224,8 @@ def run(ck):
             kinds = sorted({x[0] for x in bad if x}) or ['cases file did not evaluate']
             where = {'raw': '_morgan on raw dicts', 'mol': 'hash(atom) / int_adjacency / atoms_order of molecules', 'hash': 'tuple hash model',
                      'writer-keys': 'start atom / first child of _smiles', 'chiral': '_chiral_morgan / __differentiation (weights, _morgan inputs)',
-                     'remap-registries': 'remap() = ren_mol and its stereo registries = renamed registries', 'writer': 'canonical string and order of _smiles (writer model)'}
+                     'remap-registries': 'remap() = ren_mol and its stereo registries = renamed registries',
+                     'insertion-order': 'renumbered + shuffled molecule is mol_perm of ren_mol, both well-formed', 'writer': 'canonical string and order of _smiles (writer model)'}
             ck.unchecked('correspondence model vs implementation: ' + '; '.join(where.get(k, k) for k in kinds), log[-1500:],
                          [repr(x)[:400] for x in bad[:20]])
     ck.extra['proved'] = proved
